@@ -176,9 +176,10 @@ def gen_api_case(rng):
       a1 = rng.choice(cls)
       a2 = a1 if rng.random() < 0.6 else rng.choice(cls)
       sc = '/'.join(rng.choice(scopes))
+      same = rng.randint(0, 9) if rng.random() < 0.5 else None   # agreeing on the value is a conflict all the same
       for a in (a1, a2):
         ks = {'scope': sc, 'sel': rng.choice(sps), 'arg': a, '_form': rng.choice(['str', 'tuple'])}
-        ops.append({'op': 'hook', 'ret': [[ks, rng.randint(0, 9)]], 'raises': False})
+        ops.append({'op': 'hook', 'ret': [[ks, same if same is not None else rng.randint(0, 9)]], 'raises': False})
   ops += [{'op': 'finalize'}, {'op': 'config'}, {'op': 'locked'}]
   return {'dom': 'gin', 'ops': ops}
 
